@@ -3,6 +3,9 @@ package c13
 import (
 	"bytes"
 	"fmt"
+	"runtime"
+	"sync"
+	"sync/atomic"
 	"testing"
 
 	modbus "github.com/aldas/go-modbus-client"
@@ -45,6 +48,11 @@ type histCase struct {
 	Actions []action     `json:"actions"`
 	// Reversed: additionally perform the same actions in reverse order on a sibling copy and compare per-action results
 	Reversed bool `json:"reversed"`
+	// Parallel >= 2: additionally the actions are dealt out to this many goroutines that read a sibling copy at the same time (each
+	// repeats its share Rounds times) while an observer keeps comparing the payload with the pristine bytes. Reads without side
+	// effects cannot disturb each other; the binary is built with the race detector, which reports any write to the shared payload.
+	Parallel int `json:"parallel,omitempty"`
+	Rounds   int `json:"rounds,omitempty"`
 }
 
 type live struct {
@@ -301,7 +309,71 @@ func runHist(c histCase) harness.Result {
 			}
 		}
 	}
+	if c.Parallel >= 2 && len(c.Actions) >= 2 {
+		sib, err := open(c)
+		if err != nil {
+			return harness.Fail("harness: %v", err)
+		}
+		rounds := c.Rounds
+		if rounds < 1 {
+			rounds = 1
+		}
+		type bad struct {
+			i   int
+			got result
+		}
+		bads := make([]*bad, c.Parallel)
+		var wg sync.WaitGroup
+		var stop atomic.Bool
+		var torn atomic.Pointer[[]byte]
+		obsDone := make(chan struct{})
+		go func() {
+			defer close(obsDone)
+			for !stop.Load() {
+				if d := dataOf(sib.resp); !bytes.Equal(d, pristineData) {
+					cp := append([]byte(nil), d...)
+					torn.Store(&cp)
+					return
+				}
+				runtime.Gosched()
+			}
+		}()
+		start := make(chan struct{})
+		for g := 0; g < c.Parallel; g++ {
+			wg.Add(1)
+			go func(g int) {
+				defer wg.Done()
+				<-start
+				for r := 0; r < rounds; r++ {
+					for i := g; i < len(c.Actions); i += c.Parallel {
+						got := sib.do(c, c.Actions[i])
+						if !sameResult(got, results[i]) && bads[g] == nil {
+							bads[g] = &bad{i, got}
+						}
+					}
+				}
+			}(g)
+		}
+		close(start)
+		wg.Wait()
+		stop.Store(true)
+		<-obsDone
+		if d := torn.Load(); d != nil {
+			return harness.Fail("while %d goroutines were reading the same response, its payload was observed as %x (pristine %x): a read modified the shared payload, at least temporarily", c.Parallel, *d, pristineData)
+		}
+		for g, b := range bads {
+			if b != nil {
+				return harness.Fail("goroutine %d of %d reading the same response at the same time: action %d (%s %+v) gave %s, alone it gives %s", g, c.Parallel, b.i, c.Actions[b.i].Op, c.Actions[b.i], show(b.got), show(results[b.i]))
+			}
+		}
+		if !bytes.Equal(dataOf(sib.resp), pristineData) {
+			return harness.Fail("payload changed after concurrent reads: %x, pristine %x", dataOf(sib.resp), pristineData)
+		}
+	}
 	labels := []string{fmt.Sprintf("fc%d", c.FC), fmt.Sprintf("steps:%d", len(c.Actions)/5*5)}
+	if c.Parallel >= 2 && len(c.Actions) >= 2 {
+		labels = append(labels, "concurrent-readers")
+	}
 	if overlap {
 		labels = append(labels, "overlapping-reads")
 	}
@@ -402,6 +474,10 @@ func genHist(t *rapid.T) histCase {
 		// repeat the previous call
 		c.Actions = append(c.Actions, c.Actions[len(c.Actions)-1])
 	}
+	if rapid.IntRange(0, 3).Draw(t, "parallel") == 0 {
+		c.Parallel = rapid.IntRange(2, 3).Draw(t, "goroutines")
+		c.Rounds = rapid.SampledFrom([]int{1, 5, 20}).Draw(t, "rounds")
+	}
 	return c
 }
 
@@ -421,6 +497,10 @@ func TestSameStringTwice(t *testing.T) {
 				e := action{Op: "extract", Fields: []modbus.Field{{Name: "s", ServerAddress: "x", Type: modbus.FieldTypeString, Address: 11, Length: uint8(l), ByteOrder: packet.ByteOrder(ord)}, {Name: "u", ServerAddress: "x", Type: modbus.FieldTypeUint16, Address: 11}}}
 				for _, acts := range [][]action{{a, a}, {a, b}, {b, a, b}, {e, e}, {e, a, b}} {
 					c := histCase{Framing: spec.TCP, FC: fc, Start: 10, Payload: []byte{1, 2, 0x41, 0x42, 0x43, 0x44, 0x45, 0x46, 0x47, 0x48, 9, 9}, Actions: acts, Reversed: true}
+					if !chkHist.Eval(t, c) {
+						return
+					}
+					c.Parallel, c.Rounds = 2, 10
 					if !chkHist.Eval(t, c) {
 						return
 					}
